@@ -7,6 +7,7 @@ import "time"
 func init() {
 	vRegister("vC38_gcounter", vC38_gcounter)
 	vRegister("vC38_pncounter", vC38_pncounter)
+	vRegister("vC38_counter_value", vC38_counter_value)
 	vRegister("vC38_flag", vC38_flag)
 	vRegister("vC38_lww", vC38_lww)
 	vRegister("vC38_lww_anyclock", vC38_lww_anyclock)
@@ -91,7 +92,6 @@ func vC38_gcounter() {
 		vAssert(mxy[i] >= sx[i], "merging never shrinks a per-node count")
 	}
 	vAssert(mxy == vC38_gcSnap(yx), "merge is commutative (per-node state)")
-	vAssert(xy.Value() == mxy[0]+mxy[1]+mxy[2] && x.Value() == sx[0]+sx[1]+sx[2], "Value is the sum of the per-node counts (so the laws on the per-node state carry over to the value)")
 	l := xy.Merge(z).(*GCounter)
 	r := x.Merge(y.Merge(z)).(*GCounter)
 	vAssert(vC38_gcSnap(l) == vC38_gcSnap(r), "merge is associative (per-node state)")
@@ -150,6 +150,31 @@ func vC38_pnValue(s vC38_pnS) int64 {
 	return int64(wi) - int64(wd)
 }
 
+// Value() is a function of the per-node state (checked here for ARBITRARY states, not only reachable ones), so the
+// join laws proved on the per-node state in vC38_gcounter / vC38_pncounter carry over to the observable value
+func vC38_counter_value() {
+	var st [2]map[string]uint64
+	var snap [2][3]uint64
+	for h := 0; h < 2; h++ {
+		st[h] = make(map[string]uint64)
+		for i := 0; i < 3; i++ {
+			if vNondetBool("present") {
+				v := vNondetUint64("count")
+				st[h][vC38_nodes[i]] = v
+				snap[h][i] = v
+			}
+		}
+	}
+	g := GCounterFromState(st[0])
+	vAssert(g.Value() == snap[0][0]+snap[0][1]+snap[0][2], "GCounter.Value is the sum of the per-node counts")
+	p := PNCounterFromState(st[0], st[1])
+	vAssert(p.Value() == vC38_pnValue(vC38_pnS{snap[0], snap[1]}), "PNCounter.Value is the sum of increments minus the sum of decrements")
+	vAssert(vC38_gcSnap(g) == snap[0] && vC38_pnSnap(p) == vC38_pnS{snap[0], snap[1]}, "FromState keeps increments and decrements apart")
+	st[0]["a"] = snap[0][0] + 1
+	vAssert(vC38_gcSnap(g) == snap[0], "FromState copies its argument")
+	vCover("end")
+}
+
 func vC38_pncounter() {
 	rep := vC38_pnBuild(vCase("slots"))
 	x, y, z := rep[0], rep[1], rep[2]
@@ -168,8 +193,6 @@ func vC38_pncounter() {
 	vAssert(vC38_pnSnap(z) == sz, "Merge leaves its argument unchanged")
 	xx := x.Merge(x).(*PNCounter)
 	vAssert(vC38_pnSnap(xx) == sx, "merge is idempotent")
-	// the value is a function of the per-node state, so the laws above carry over to Value()
-	vAssert(x.Value() == vC38_pnValue(sx) && xy.Value() == vC38_pnValue(mxy), "Value is the sum of increments minus the sum of decrements")
 	c := x.Clone().(*PNCounter)
 	vAssert(vC38_pnSnap(c) == sx, "Clone yields an equal counter")
 	c.increments.state["a"] = sx.inc[0] + 1
